@@ -87,7 +87,12 @@ func Access(ptr unsafe.Pointer, loc string, write bool, site string) {
 	if sc == nil || sc.aborting || sc.cur == nil || ptr == nil {
 		return
 	}
-	t := sc.cur
+	sc.accessBy(sc.cur, ptr, loc, write, site)
+}
+
+// accessBy records an access made by (or, for a parked channel operation completed by its partner,
+// on behalf of) thread t.
+func (sc *sched) accessBy(t *thread, ptr unsafe.Pointer, loc string, write bool, site string) {
 	key := accessKey{ptr, strings.HasSuffix(loc, "#obj")}
 	st := sc.access[key]
 	if st == nil {
